@@ -21,7 +21,9 @@ type ParserData struct {
 		breakIndex    int
 	}
 	loopLayer int // 当前loop层数
-	codeStack []struct {
+
+	codeOverflow bool // 指令数超过上限(8192)，后续指令被丢弃，解析结束后需报错
+	codeStack    []struct {
 		code    []ByteCode
 		index   int
 		textPos int
@@ -65,6 +67,7 @@ func (e *ParserData) checkStackOverflow() bool {
 			e.code = newCode
 		} else {
 			// e.Error = errors.New("E1:指令虚拟机栈溢出，请不要发送过长的指令")
+			e.codeOverflow = true
 			return true
 		}
 	}
